@@ -78,6 +78,9 @@ PHYS_VARS = ['st_RicciS', 'st_Weyl_down4', 'Kretschmann', 'eweyl_u_down4',
 EST = ['max', 'mean', 'min', 'median', 'maxabs', 'x0y0z0', 'x1y1z1', 'std']
 
 
+warmup = cc.warmup
+
+
 def generate(rng, tier):
     g = rng.child('c14')
     cfg = coresim.gen_config(rng, 'C14')
